@@ -69,7 +69,7 @@ func (fr *Frame) call(st *State, pc Term, ins *ssa.Call) Val {
 			}
 			fr.safety("nil-call", pos, pc, Not(Eq(rt, Term{"n_nil", SNode})), "method call on nil interface")
 		}
-		return fr.applyContract(st, pc, key, con, names, args, &recv, resT, pos)
+		return fr.applyContracts(st, pc, []conPart{{key: key, con: con, names: names, args: args, recv: &recv}}, resT, pos)
 	}
 	callee := c.StaticCallee()
 	var binds []Val
@@ -105,12 +105,21 @@ func (fr *Frame) call(st *State, pc Term, ins *ssa.Call) Val {
 			}
 			return e.wrap(st, r, "fresh")
 		}
-		if con := e.p.Contracts[key]; con != nil && e.pure == 0 {
-			var names []string
-			for _, p := range callee.Params {
-				names = append(names, p.Name())
+		icon, ikey := e.p.ifaceContractFor(callee)
+		if con := e.p.Contracts[key]; (con != nil || icon != nil) && e.pure == 0 {
+			var parts []conPart
+			if icon != nil && len(args) > 0 {
+				self := termVal(e.makeInterface(st, args[0], callee.Params[0].Type(), e.p.Pkg.Types.Scope().Lookup("JsonNode").Type()))
+				parts = append(parts, conPart{key: ikey, con: icon, names: e.p.ifaceMethodParamNames("JsonNode", callee.Name()), args: args[1:], recv: &self, recvArg: &args[0]})
 			}
-			return fr.applyContract(st, pc, key, con, names, args, nil, resT, pos)
+			if con != nil {
+				var names []string
+				for _, p := range callee.Params {
+					names = append(names, p.Name())
+				}
+				parts = append(parts, conPart{key: key, con: con, names: names, args: args})
+			}
+			return fr.applyContracts(st, pc, parts, resT, pos)
 		}
 		if callee.Blocks != nil {
 			if v, ok := fr.inline(st, pc, callee, args, binds, pos); ok {
@@ -188,104 +197,107 @@ func (fr *Frame) inline(st *State, pc Term, callee *ssa.Function, args []Val, bi
 	return Val{K: vTuple, Tup: rets}, true
 }
 
-// applyContract uses a callee contract at a call site.
-func (fr *Frame) applyContract(st *State, pc Term, key string, con *Contract, names []string, args []Val, recv *Val, resT types.Type, pos token.Pos) Val {
+type conPart struct {
+	key     string
+	con     *Contract
+	names   []string
+	args    []Val
+	recv    *Val // value bound to "self" (interface-level contracts)
+	recvArg *Val // the concrete receiver argument behind self (static method calls)
+}
+
+// applyContracts uses callee contracts at a call site: requires become obligations, modified
+// arguments are havocked, the result is fresh, ensures are assumed.
+func (fr *Frame) applyContracts(st *State, pc Term, parts []conPart, resT types.Type, pos token.Pos) Val {
 	e := fr.e
-	env := &SpecEnv{e: e, st: st, vars: map[string]Val{}, old: map[string]Val{}}
-	bind := func(m map[string]Val, snapshot bool) {
-		off := 0
-		if recv == nil && len(args) == len(names)+1 {
-			off = 0
+	snap := func(v Val) Val {
+		if v.K == vSlice || v.K == vMap {
+			return termVal(e.toTerm(st, v))
 		}
-		for i, n := range names {
-			if i+off < len(args) {
-				v := args[i+off]
-				if snapshot && (v.K == vSlice || v.K == vMap) {
-					v = termVal(e.toTerm(st, v))
-				}
-				m[n] = v
-			}
-		}
-		if recv != nil {
-			v := *recv
-			if snapshot && (v.K == vSlice || v.K == vMap) {
-				v = termVal(e.toTerm(st, v))
-			}
-			m["self"] = v
-		}
+		return v
 	}
-	// static method calls: first arg is the receiver, names from callee.Params include it
-	bind(env.vars, true)
-	bind(env.old, true)
-	for i, rq := range con.Requires {
-		g, err := e.evalClause(rq.Text, env)
-		if err != nil {
-			e.fail("%s: requires %d of %s: %v", fr.key, i, key, err)
-			continue
+	olds := make([]map[string]Val, len(parts))
+	for pi, part := range parts {
+		old := map[string]Val{}
+		for i, n := range part.names {
+			if i < len(part.args) {
+				old[n] = snap(part.args[i])
+			}
 		}
-		e.oblige("requires", fmt.Sprintf("%s#requires(%s/%d)@%s", e.fnKey, key, i, e.posStr(pos)), pos, pc, g, rq.Text)
+		if part.recv != nil {
+			old["self"] = snap(*part.recv)
+		}
+		olds[pi] = old
+		env := &SpecEnv{e: e, st: st, vars: old, old: old}
+		for i, rq := range part.con.Requires {
+			g, err := e.evalClause(rq.Text, env)
+			if err != nil {
+				e.fail("%s: requires %d of %s: %v", fr.key, i, part.key, err)
+				continue
+			}
+			e.oblige("requires", fmt.Sprintf("%s#requires(%s/%d)@%s", e.fnKey, part.key, i, e.posStr(pos)), pos, pc, g, rq.Text)
+		}
 	}
 	// frame: havoc modified/consumed arguments
-	for _, m := range append(append([]string{}, con.Modifies...), con.Consumes...) {
-		var target *Val
-		if m == "self" && recv != nil {
-			target = recv
-		}
-		for i, n := range names {
-			if n == m && i < len(args) {
-				target = &args[i]
+	for _, part := range parts {
+		for _, m := range append(append([]string{}, part.con.Modifies...), part.con.Consumes...) {
+			var target *Val
+			if m == "self" {
+				if part.recvArg != nil {
+					target = part.recvArg
+				} else if part.recv != nil {
+					target = part.recv
+				}
+			}
+			for i, n := range part.names {
+				if n == m && i < len(part.args) {
+					target = &part.args[i]
+				}
+			}
+			if target == nil {
+				continue
+			}
+			switch target.K {
+			case vSlice, vMap:
+				if e.prov != nil {
+					e.prov.write(e, target.R, pos, "call of "+part.key+" (modifies "+m+")")
+				}
+				old := st.mem[target.R]
+				c := e.fresh("hv_"+m, old.Sort)
+				if target.K == vMap {
+					e.assumeTypeInv(c, nil)
+				}
+				st.mem[target.R] = c
 			}
 		}
-		if target == nil {
-			continue
-		}
-		// a receiver that is an interface term holds its payload by value: nothing to havoc
-		switch target.K {
-		case vSlice:
-			if e.prov != nil {
-				e.prov.write(e, target.R, pos, "call "+key+" modifies "+m)
+	}
+	res := e.freshVal(st, "r_"+sanitize(parts[len(parts)-1].key), resT, "call", pc)
+	for pi, part := range parts {
+		post := &SpecEnv{e: e, st: st, vars: map[string]Val{}, old: olds[pi]}
+		for i, n := range part.names {
+			if i < len(part.args) {
+				post.vars[n] = part.args[i]
 			}
-			old := st.mem[target.R]
-			st.mem[target.R] = e.fresh("hv_"+m, old.Sort)
-		case vMap:
-			if e.prov != nil {
-				e.prov.write(e, target.R, pos, "call "+key+" modifies "+m)
+		}
+		if part.recv != nil {
+			post.vars["self"] = *part.recv
+		}
+		if res.K == vTuple {
+			for i, r := range res.Tup {
+				post.vars[fmt.Sprintf("ret%d", i)] = r
 			}
-			old := st.mem[target.R]
-			c := e.fresh("hv_"+m, old.Sort)
-			e.assumeTypeInv(c, nil)
-			st.mem[target.R] = c
+		} else if res.K != vNone {
+			post.vars["ret0"] = res
+			post.vars["ret"] = res
 		}
-	}
-	res := e.freshVal(st, "r_"+sanitize(key), resT, "call", pc)
-	// post-state bindings
-	post := &SpecEnv{e: e, st: st, vars: map[string]Val{}, old: env.old}
-	for i, n := range names {
-		if i < len(args) {
-			post.vars[n] = args[i]
+		for i, en := range part.con.Ensures {
+			g, err := e.evalClause(en.Text, post)
+			if err != nil {
+				e.fail("%s: ensures %d of %s: %v", fr.key, i, part.key, err)
+				continue
+			}
+			e.assume(Implies(pc, g))
 		}
-	}
-	if recv != nil {
-		post.vars["self"] = *recv
-	}
-	if res.K == vTuple {
-		for i, r := range res.Tup {
-			post.vars[fmt.Sprintf("ret%d", i)] = r
-		}
-	} else if res.K != vNone {
-		post.vars["ret0"] = res
-		post.vars["ret"] = res
-	}
-	for i, en := range con.Ensures {
-		g, err := e.evalClause(en.Text, post)
-		if err != nil {
-			e.fail("%s: ensures %d of %s: %v", fr.key, i, key, err)
-			continue
-		}
-		e.assume(Implies(pc, g))
-	}
-	for _, f := range con.Fresh {
-		_ = f
 	}
 	return res
 }
@@ -346,10 +358,10 @@ func (fr *Frame) builtin(st *State, pc Term, ins *ssa.Call, b *ssa.Builtin) Val 
 		old := st.mem[dst.R]
 		srcArr := st.mem[src.R]
 		na := e.fresh("cp", old.Sort)
-		e.assume(T(SBool, "(forall ((k Int)) (=> (and (<= 0 k) (< k %s)) (= (select %s (+ %s k)) (select %s (+ %s k)))))",
-			n.S, na.S, dst.Off.S, srcArr.S, src.Off.S))
-		e.assume(T(SBool, "(forall ((k Int)) (=> (or (< k %s) (>= k (+ %s %s))) (= (select %s k) (select %s k))))",
-			dst.Off.S, dst.Off.S, n.S, na.S, old.S))
+		e.assume(T(SBool, "(forall ((k Int)) (! (=> (and (<= %s k) (< k (+ %s %s))) (= (select %s k) (select %s (+ %s (- k %s))))) :pattern ((select %s k))))",
+			dst.Off.S, dst.Off.S, n.S, na.S, srcArr.S, src.Off.S, dst.Off.S, na.S))
+		e.assume(T(SBool, "(forall ((k Int)) (! (=> (or (< k %s) (>= k (+ %s %s))) (= (select %s k) (select %s k))) :pattern ((select %s k))))",
+			dst.Off.S, dst.Off.S, n.S, na.S, old.S, na.S))
 		st.mem[dst.R] = na
 		return termVal(n)
 	case "delete":
@@ -402,8 +414,8 @@ func (fr *Frame) appendVals(st *State, s, t Val, sort Sort) Val {
 	ln := e.name("applen", Arith("+", s.Len, t.Len))
 	// prefix
 	if s.Len.S != "0" {
-		e.assume(T(SBool, "(forall ((k Int)) (=> (and (<= 0 k) (< k %s)) (= (select %s k) (select %s (+ %s k)))))",
-			s.Len.S, na.S, sArr.S, s.Off.S))
+		e.assume(T(SBool, "(forall ((k Int)) (! (=> (and (<= 0 k) (< k %s)) (= (select %s k) (select %s (+ %s k)))) :pattern ((select %s k))))",
+			s.Len.S, na.S, sArr.S, s.Off.S, na.S))
 	}
 	// suffix: ground facts for short literal lengths, else quantified
 	if n, ok := smallLit(t.Len); ok {
@@ -412,8 +424,8 @@ func (fr *Frame) appendVals(st *State, s, t Val, sort Sort) Val {
 				App(d.Elem, "select", tArr, Arith("+", t.Off, IntLit(int64(j))))))
 		}
 	} else {
-		e.assume(T(SBool, "(forall ((k Int)) (=> (and (<= 0 k) (< k %s)) (= (select %s (+ %s k)) (select %s (+ %s k)))))",
-			t.Len.S, na.S, s.Len.S, tArr.S, t.Off.S))
+		e.assume(T(SBool, "(forall ((k Int)) (! (=> (and (<= %s k) (< k %s)) (= (select %s k) (select %s (+ %s (- k %s))))) :pattern ((select %s k))))",
+			s.Len.S, ln.S, na.S, tArr.S, t.Off.S, s.Len.S, na.S))
 	}
 	st.mem[r] = na
 	return Val{K: vSlice, R: r, Off: IntLit(0), Len: ln, S: sort}
